@@ -708,14 +708,14 @@ func init() {
 		ID:          "C03",
 		Level:       "model_checking",
 		Technique:   "exhaustive enumeration of cut positions (deviation = one cut) over a corpus of client byte streams on a real server (differential against the un-cut delivery), of surplus-carrying messages followed by a probe, and explicit-state enumeration of message bodies x accessor sequences on buffer.Reader against an independent cursor model",
-		Rule:        "segmentation: streams = startup + every history of <= 3 letters over 12 letters (incl. surplus-carrying, oversized, COPY, truncated); read sizes 1/2/3, every single cut, every double cut (all pairs for streams <= 64 bytes, else within +-6 bytes of a message boundary), thorough: triple cuts inside every header; isolation: 16 surplus variants x prefixes of <= 1 letter; declared length: 6 positions (first, after a query, in a batch, in text / binary COPY, awaiting the password) x 15 message types x 15 declared lengths (limit+5 ... 2^31-1, 2^31, 2^31+24, 2^32-1) x {0,1,40} framed queries behind the header then EOF; starter surplus: 5 statement-starting messages (Query / Execute starting text / binary COPY) x 9 surplus contents, callbacks compared with the surplus-free run; earlier message: every Bind shape (0-4 format codes x 0-4 values) processed before every well-formed Bind, what the statement observes compared with the run without the earlier Bind; accessors: all bodies of length <= 5 over {00,01,'a',FF} x all accessor sequences of length <= 4 (thorough 5) over 8 accessors",
+		Rule:        "segmentation: streams = startup + every history of <= 3 letters over 12 letters (incl. surplus-carrying, oversized, COPY, truncated); read sizes 1/2/3, every single cut, every double cut (all pairs for streams <= 64 bytes, else within +-6 bytes of a message boundary), thorough: triple cuts inside every header; isolation: 16 surplus variants x prefixes of <= 1 letter; declared length: 6 positions (first, after a query, in a batch, in text / binary COPY, awaiting the password) x 15 message types x 15 declared lengths (limit+5 ... 2^31-1, 2^31, 2^31+24, 2^32-1) x {0,1,40} framed queries behind the header then EOF; starter surplus: 5 statement-starting messages (Query / Execute starting text / binary COPY) x 9 surplus contents, callbacks compared with the surplus-free run; truncated stream: 7 canonical sessions cut after every byte (a message that was not received completely never reaches user code); earlier message: every Bind shape (0-4 format codes x 0-4 values) processed before every well-formed Bind, what the statement observes compared with the run without the earlier Bind; accessors: all bodies of length <= 5 over {00,01,'a',FF} x all accessor sequences of length <= 4 (thorough 5) over 8 accessors",
 		Assumptions: []string{"accessor results after the first error and negative sizes are outside the quantifier", "a surplus-carrying message may be rejected by closing the connection (nothing can leak then)"},
 		Enumerate:   c03Enumerate,
 		Bounds: func(tier string) map[string]any {
 			a, b := c03Depths(tier)
 			return map[string]any{"history_depth_single_cut": a, "history_depth_double_cut": b, "accessor_sequence_length": c03AccDepth(tier), "body_length": 5}
 		},
-		RequiredOutcomes: []string{"segmentation", "isolation", "accessors", "declared-length", "starter-surplus", "earlier-message"},
+		RequiredOutcomes: []string{"segmentation", "isolation", "accessors", "declared-length", "starter-surplus", "earlier-message", "truncated-stream"},
 	})
 }
 
@@ -763,6 +763,32 @@ func c03Enumerate(tier string, emit explore.Emit) {
 						Run: func() explore.Result { return c03RunDeclared(pos, t, d, frames) }})
 				}
 			}
+		}
+	}
+	// a stream that ends inside a message: that message was never received, nothing of it may reach user code
+	// (the callbacks are a prefix of the callbacks of the complete session; same machinery as C04's prefix closure)
+	for _, s := range c04Sessions() {
+		switch s.Name {
+		case "plain / query", "plain / multi-statement query", "plain / query with placeholders", "plain / extended batch", "plain / copy text", "plain / copy binary one message", "auth / query":
+		default:
+			continue
+		}
+		s := s
+		n := len(s.stream())
+		for cut := 1; cut < n; cut++ {
+			cut := cut
+			emit(explore.Case{Family: "truncated-stream", Size: cut,
+				Desc: func() any { return map[string]any{"session": s.Name, "cut_after_bytes": cut, "of": n} },
+				Run: func() explore.Result {
+					r := c04RunPrefix(s, cut)
+					r.Outcome = "truncated-stream"
+					for i := range r.Violations {
+						if r.Violations[i].Clause == "fabricated-callback" {
+							r.Violations[i].Clause = "truncated-message-interpreted"
+						}
+					}
+					return r
+				}})
 		}
 	}
 	for fa := 0; fa <= 4; fa++ {
